@@ -3,6 +3,7 @@ package main
 import (
 	"fmt"
 	"github.com/gobuffalo/plush/v5"
+	"github.com/gobuffalo/plush/v5/helpers/hctx"
 	"strings"
 )
 
@@ -316,6 +317,42 @@ func init() {
 			o := e.addRenderCase("result", c)
 			if (t.want == "ERR") != (o.Class == "ERR") || (t.want != "ERR" && o.Out != t.want) || (t.want == "ERR" && o.Sentinel != 1) {
 				e.Violate("c12-result", fmt.Sprintf("%s: got %s %q", t.tmpl, o.Class, o.Out), map[string]interface{}{"case": c, "observed": o})
+			}
+		}
+		// a helper context in a FIXED position before a variadic tail can only be asked for by writing nil
+		// there: it is supplied automatically all the same and carries the call's block; the tail receives
+		// the remaining arguments (struct-typed and interface-typed context parameters, Go-only helpers)
+		{
+			got := []string{}
+			mk := func(hasBlock func() bool, block func() (string, error), tags []string) (string, error) {
+				got = append(got, fmt.Sprint(hasBlock(), tags))
+				if !hasBlock() {
+					return "noblock:" + strings.Join(tags, ","), nil
+				}
+				b, err := block()
+				return "<" + b + ">" + strings.Join(tags, ","), err
+			}
+			extra := map[string]interface{}{
+				"wrapv": func(h plush.HelperContext, tags ...string) (string, error) { return mk(h.HasBlock, h.Block, tags) },
+				"wrapi": func(h hctx.HelperContext, tags ...string) (string, error) { return mk(h.HasBlock, h.Block, tags) },
+				"wrapn": func(n int, h plush.HelperContext, tags ...string) (string, error) {
+					return mk(h.HasBlock, h.Block, append([]string{fmt.Sprint(n)}, tags...))
+				},
+				"wrapf": func(s string, h plush.HelperContext) (string, error) { return mk(h.HasBlock, h.Block, []string{s}) },
+			}
+			for _, t := range [][2]string{
+				{`<%= wrapv(nil, "a", "b") { %>body<% } %>`, "&lt;body&gt;a,b"}, {`<%= wrapv(nil) { %>body<% } %>`, "&lt;body&gt;"}, {`<%= wrapv(nil, "a") %>`, "noblock:a"},
+				{`<%= wrapi(nil, "a", "b") { %>body<% } %>`, "&lt;body&gt;a,b"}, {`<%= wrapi(nil) %>`, "noblock:"}, {`<%= wrapn(7, nil, "t") { %>x<%= 1 %><% } %>`, "&lt;x1&gt;7,t"},
+				{`<%= wrapf("s", nil) { %>blk<% } %>`, "&lt;blk&gt;s"}, {`<%= wrapf("s") { %>blk<% } %>`, "&lt;blk&gt;s"}, {`<%= for (x) in ["p", "q"] { %><%= wrapv(nil, x) { %><%= x %><% } %>;<% } %>`, "&lt;p&gt;p;&lt;q&gt;q;"},
+			} {
+				got = got[:0]
+				o := runRenderExtra(RCase{Tmpl: t[0]}, extra)
+				e.rep.Evaluations++
+				e.Count("context-before-variadic-tail")
+				e.Distinct(t[0])
+				if o.Class != "OK" || o.Out != t[1] {
+					e.Violate("c12-bind", fmt.Sprintf("%s: rendered %q (%s %s), want %q; the helper saw (has block, tail) = %v", t[0], o.Out, o.Class, firstLine(o.Msg), t[1], got), map[string]interface{}{"tmpl": t[0], "observed": o})
+				}
 			}
 		}
 		// the repaired defect F8 stays in the corpus
